@@ -21,6 +21,7 @@ RULE = ('Hypothesis: 1-3 displayed equations per document, each rows(1-3) x sect
         'oracle: per output line the non-blank content equals the reference rewriter (placeholders with rotation carried across equations, operator words, \\text words, punctuation directly after '
         'its placeholder); \\text words carry exact positions, every other character maps inside the equation; simple mode: one display placeholder + final punctuation mark. '
         'non-trivial = (at least 2 rows or a text part) and a trailing punctuation mark followed by \\label / \\nonumber / maths space; distinct by source text')
+RULE += ' Additions: user macros whose body is one capital letter; metamorphic multi-language run: an equation in a foreign-language block leaves the placeholders of the main-language text unchanged.'
 ASSUMPTIONS = [
     'shapes on which README is silent are not generated: blank \\text{ }, text parts without words',
     'output lines are compared by their non-blank content (README notes that adjacent parts are glued); lines left empty by empty rows are ignored on both sides',
@@ -285,6 +286,26 @@ def check(doc):
                 for p in ps:
                     if p[0] != 'T' and p[3] and p[4].strip():
                         stats['punct_then_more'] += 1
+    # metamorphic, multi-language mode: an equation inside a foreign-language block advances the collection of
+    # that language only - the main-language text shows the same placeholders in the same order as before
+    # (seeded change C11-H)
+    if len(marks) >= 2 and (len(src) + len(eqs)) % 2 == 0:
+        foreign, fkey = ('english', 'en-GB') if lang == 'de' else ('german', 'de-DE')
+        cut = src.index(marks[1]) + len(marks[1])
+        src2 = src[:cut] + '\n\\begin{otherlanguage}{%s}\n\\[ a = b. \\]\nwort\n\\end{otherlanguage}\n' % foreign + src[cut:]
+        case2 = {'doc': doc, 'src': src2}
+        try:
+            with watchdog(20):
+                r2, err2 = sut.tex2txt(src2, ml=True, lang=lang, pack='*', seqs=seqs)
+        except Exception as e:
+            raise Violation('exception:' + sut_frame(e), case2, repr(e))
+        ph = re.compile('|'.join(re.escape(x) for x in REPL['en'] + REPL['ru']))
+        seq1 = ph.findall(plain)
+        seq2 = ph.findall(''.join(p[0] for k in r2 if k != fkey for p in r2[k]))
+        if seq1 != seq2:
+            raise Violation('foreign-language-equation-changes-main-language-placeholders', case2,
+                            {'single_language_run': seq1, 'main_language_parts': seq2, 'result': r2})
+        stats['ml'] = 1
     nt = (stats['rows'] >= 2 or stats['text'] > 0) and stats['punct_then_more'] > 0
     return src, nt, stats
 
